@@ -63,6 +63,12 @@ def gen_cases(tier, seed):
         lb = 1 if rng.random() < 0.7 else rng.randint(1, 2)
         cases.append({"kind": "mgs", "numbers": nums, "total": total, "mult": mult, "wt": wt, "lb": lb, "parts": parts, "rcv": rng.random() < 0.8, "planted": k,
                       "np": (rng.choice(["int64", "int32"]) if wt == "int" else "float64") if rng.random() < 0.1 else None})
+        if wt == "int" and i % 4 == 0 and not parts:
+            # the same instance in decimal / non-representable float units (numbers v/scale computed in floating point, as a caller
+            # reading '0.3' and '0.7' from a file has them): the minimum size is scale invariant, membership is judged within 1e-6
+            sc = rng.choice([10, 10, 100, 3, 7, 1000])
+            cases.append({"kind": "mgs", "numbers": [v / sc for v in nums], "total": total / sc, "mult": mult, "wt": "float", "lb": 1, "parts": None,
+                          "rcv": rng.random() < 0.8, "planted": k, "np": None, "scaled": {"numbers": nums, "total": total, "by": sc}})
     for i in range(n):
         rng = gen.rng_for("C15s", seed, i)
         nu = rng.randint(1, 7); U = list(range(nu)) if rng.random() < 0.7 else [f"e{j}" for j in range(nu)]
@@ -121,7 +127,11 @@ def run_mgs(case, viol, obs):
     # reference on the numbers that matter (0 and total are trivially generated)
     eff = [x for x in nums if 0 < x]
     try:
-        kstar = ref.min_gen_set(eff, total, wt, mult, partitions=case["parts"], kmax=len(set(eff)) + 2)
+        if case.get("scaled"):
+            sc = case["scaled"]; ie = [x for x in sc["numbers"] if 0 < x]
+            kstar = ref.min_gen_set([float(x) for x in ie], float(sc["total"]), float, mult, partitions=None, kmax=len(set(ie)) + 2)
+        else:
+            kstar = ref.min_gen_set(eff, total, wt, mult, partitions=case["parts"], kmax=len(set(eff)) + 2)
     except ref.RefTimeout:
         obs["c15.ref_timeout"] += 1; return None, False
     if wt is int and total <= 24 and not case["parts"] and len(set(eff)) <= 4 and kstar is not None and kstar <= 3:
@@ -134,7 +144,7 @@ def run_mgs(case, viol, obs):
         # a user-supplied lower bound above the optimum is outside the domain ("valid lower bounds"); skip
         obs["c15.invalid_lb_skipped"] += 1; return None, False
     obs["c15.mgs_compared"] += 1
-    tag = ("/mult>1" if mult > 1 else "") + ("/partition" if case["parts"] else "") + ("/float" if wt is float else "")
+    tag = ("/mult>1" if mult > 1 else "") + ("/partition" if case["parts"] else "") + ("/float" if wt is float else "") + ("/scaled" if case.get("scaled") else "")
     solved = bool(s[1]) and m.is_solved()
     if kstar is None:
         if solved:
@@ -161,7 +171,7 @@ def run_mgs(case, viol, obs):
         sums = set()
         for x in itertools.product(range(mult + 1), repeat=len(sol)):
             sums.add(round(sum(a * b for a, b in zip(x, sol)), 9))
-        bad = [a for a in eff if round(a, 9) not in sums]
+        bad = [a for a in eff if round(a, 9) not in sums and not (wt is float and any(abs(a - t) <= 1e-6 for t in sums))]
         if bad:
             viol.append({"sig": "C15/mgs-number-not-generated" + tag, "msg": f"{bad} are not sub-multiset sums of {sol}; {desc}"})
         for p in case["parts"] or []:
